@@ -92,34 +92,23 @@ func newlineWidth(text string) (w int, mixed bool) {
 }
 
 // abstractTokens maps the token stream to the alphabet of spec/LexTrace.tla.
-func abstractTokens(toks []antlr.Token) [][3]int {
+func abstractTokens(toks []antlr.Token, input string) [][3]int {
+	src := []rune(input)
 	res := make([][3]int, 0, len(toks))
-	for i, t := range toks {
+	for _, t := range toks {
 		switch t.GetTokenType() {
 		case parser.YarnSpinnerLexerNEWLINE:
 			w, _ := newlineWidth(t.GetText())
-			// kind of the line that follows: look at the tokens up to the next line break
-			kind := 1 // blank
-			for j := i + 1; j < len(toks); j++ {
-				u := toks[j]
-				ty := u.GetTokenType()
-				if ty == parser.YarnSpinnerLexerINDENT || ty == parser.YarnSpinnerLexerDEDENT {
-					continue
-				}
-				if ty == parser.YarnSpinnerLexerNEWLINE || ty == antlr.TokenEOF {
-					break
-				}
-				if u.GetChannel() == antlr.TokenHiddenChannel {
-					continue // whitespace
-				}
-				if u.GetChannel() == parser.YarnSpinnerLexerCOMMENTS {
-					if kind == 1 {
-						kind = 2
-					}
-					continue
-				}
-				kind = 0
-				break
+			// kind of the line that follows, read off the source text itself (tokens are
+			// unreliable here: characters the lexer cannot match produce no token at all):
+			// nothing or only a line break after the indentation -> blank, `//` -> comment-only
+			kind := 0
+			p := t.GetStop() + 1
+			switch {
+			case p >= len(src) || src[p] == '\r' || src[p] == '\n':
+				kind = 1
+			case src[p] == '/' && p+1 < len(src) && src[p+1] == '/':
+				kind = 2
 			}
 			res = append(res, [3]int{1, w, kind})
 		case parser.YarnSpinnerLexerINDENT:
@@ -165,7 +154,7 @@ func lexRecordMain(m map[string]string) error {
 			return err
 		}
 		toks, outcome := lexTokens(string(b))
-		rec := lexRecord{ID: in.ID, Kind: in.Kind, Outcome: outcome, Toks: abstractTokens(toks)}
+		rec := lexRecord{ID: in.ID, Kind: in.Kind, Outcome: outcome, Toks: abstractTokens(toks, string(b))}
 		if err := w.Write(rec); err != nil {
 			return err
 		}
